@@ -401,6 +401,24 @@ def exec_history(ops, factory):
         def __exit__(self, *a):
             log.append(("exit", "failed-enter"))
 
+    class FailEnterAttr:
+        """__aenter__ fails with an AttributeError of its own (async-only manager)."""
+
+        async def __aenter__(self):
+            raise AttributeError("enter")
+
+        async def __aexit__(self, *a):
+            log.append(("exit", "failed-enter"))
+
+    class FailEnterAttrDual(FailEnterAttr):
+        """... and the manager also offers the synchronous protocol, which must not be used instead."""
+
+        def __enter__(self):
+            log.append(("exit", "sync-protocol-used-after-failed-aenter"))
+
+        def __exit__(self, *a):
+            log.append(("exit", "failed-enter"))
+
     async def main():
         stacks = [factory()]
         nid = 0
@@ -430,12 +448,20 @@ def exec_history(ops, factory):
                 elif op[0] == "enter_fail":
                     k = op[1] if op[1] < len(stacks) else 0
                     try:
-                        if nid % 2:
+                        variant = (nid + len(ops)) % 4
+                        if variant == 0:
                             await stacks[k].enter("scm", FailEnterSync())
-                        else:
+                        elif variant == 1:
                             await stacks[k].enter("acm", FailEnter())
+                        elif variant == 2:
+                            await stacks[k].enter("acm", FailEnterAttr())
+                        else:
+                            await stacks[k].enter("acm", FailEnterAttrDual())
                     except E as x:
                         log.append(("enter-raised", x.n))
+                    except AttributeError as x:
+                        # the very error of __aenter__ ("enter"), not a secondary one about a missing method
+                        log.append(("enter-raised", str(x)))
                 elif op[0] == "aclose":
                     k = op[1] if op[1] < len(stacks) else 0
                     await stacks[k].aclose()
